@@ -87,4 +87,159 @@ theorem laguerre_bibo (g B : α) (hg0 : 0 ≤ g) (hg1 : g < 1) (xs : List α) (h
     · rw [le_div_iff₀ (by norm_num)]; linarith [a0.1, a1.1, a2.1, a3.1]
     · rw [div_le_iff₀ (by norm_num)]; linarith [a0.2, a1.2, a2.2, a3.2]
 
+/-! ### fading memory -/
+/-- the weighted norm |l0| + ε|l1| + ε²|l2| + ε³|l3| -/
+def V (e : α) (s : α × α × α × α) : α := |s.1| + e * |s.2.1| + e * e * |s.2.2.1| + e * e * e * |s.2.2.2|
+
+/-- one step of the ladder with input 0 -/
+def zstep (g : α) (s : α × α × α × α) : α × α × α × α :=
+  (g * s.1, -g * (g * s.1) + s.1 + g * s.2.1, -g * (-g * (g * s.1) + s.1 + g * s.2.1) + s.2.1 + g * s.2.2.1,
+    -g * (-g * (-g * (g * s.1) + s.1 + g * s.2.1) + s.2.1 + g * s.2.2.1) + s.2.2.1 + g * s.2.2.2)
+
+theorem abs_stage (g a b c : α) (hg : 0 ≤ g) : |-g * a + b + g * c| ≤ g * |a| + |b| + g * |c| := by
+  calc |-g * a + b + g * c| ≤ |-g * a + b| + |g * c| := abs_add_le _ _
+    _ ≤ |-g * a| + |b| + |g * c| := by gcongr; exact abs_add_le _ _
+    _ = g * |a| + |b| + g * |c| := by rw [abs_mul, abs_mul, abs_neg, abs_of_nonneg hg]
+
+/-- **with no input the weighted norm contracts by ρ = (1+γ)/2 per step**, ε = (1−γ)/8 -/
+theorem zstep_contracts (g : α) (hg0 : 0 ≤ g) (hg1 : g < 1) (s : α × α × α × α) :
+    V ((1 - g) / 8) (zstep g s) ≤ (1 + g) / 2 * V ((1 - g) / 8) s := by
+  set e := (1 - g) / 8 with he
+  have he0 : 0 < e := by rw [he]; linarith
+  have he8 : e ≤ 1 / 8 := by rw [he]; linarith
+  set A0 := |s.1|; set A1 := |s.2.1|; set A2 := |s.2.2.1|; set A3 := |s.2.2.2|
+  have hA0 : 0 ≤ A0 := abs_nonneg _
+  have hA1 : 0 ≤ A1 := abs_nonneg _
+  have hA2 : 0 ≤ A2 := abs_nonneg _
+  have hA3 : 0 ≤ A3 := abs_nonneg _
+  have n0 : |g * s.1| = g * A0 := by rw [abs_mul, abs_of_nonneg hg0]
+  have n1 : |-g * (g * s.1) + s.1 + g * s.2.1| ≤ 2 * A0 + g * A1 := by
+    have := abs_stage g (g * s.1) s.1 s.2.1 hg0
+    rw [n0] at this
+    have hs1 : g * A0 ≤ A0 := mul_le_of_le_one_left hA0 hg1.le
+    have hgg : g * (g * A0) ≤ A0 := le_trans (mul_le_of_le_one_left (mul_nonneg hg0 hA0) hg1.le) hs1
+    linarith
+  have n2 : |-g * (-g * (g * s.1) + s.1 + g * s.2.1) + s.2.1 + g * s.2.2.1| ≤ 2 * A0 + 2 * A1 + g * A2 := by
+    have := abs_stage g (-g * (g * s.1) + s.1 + g * s.2.1) s.2.1 s.2.2.1 hg0
+    have h1 : g * |-g * (g * s.1) + s.1 + g * s.2.1| ≤ 2 * A0 + A1 := by
+      have q1 := mul_le_of_le_one_left (abs_nonneg (-g * (g * s.1) + s.1 + g * s.2.1)) hg1.le
+      have q2 : g * A1 ≤ A1 := mul_le_of_le_one_left hA1 hg1.le
+      linarith
+    linarith
+  have n3 : |-g * (-g * (-g * (g * s.1) + s.1 + g * s.2.1) + s.2.1 + g * s.2.2.1) + s.2.2.1 + g * s.2.2.2|
+      ≤ 2 * A0 + 2 * A1 + 2 * A2 + g * A3 := by
+    have := abs_stage g (-g * (-g * (g * s.1) + s.1 + g * s.2.1) + s.2.1 + g * s.2.2.1) s.2.2.1 s.2.2.2 hg0
+    have h1 : g * |-g * (-g * (g * s.1) + s.1 + g * s.2.1) + s.2.1 + g * s.2.2.1| ≤ 2 * A0 + 2 * A1 + A2 := by
+      have q1 := mul_le_of_le_one_left (abs_nonneg (-g * (-g * (g * s.1) + s.1 + g * s.2.1) + s.2.1 + g * s.2.2.1)) hg1.le
+      have q2 : g * A2 ≤ A2 := mul_le_of_le_one_left hA2 hg1.le
+      linarith
+    linarith
+  have hee : 0 ≤ e * e := by positivity
+  have heee : 0 ≤ e * e * e := by positivity
+  have k0 : g + 2 * e + 2 * (e * e) + 2 * (e * e * e) ≤ (1 + g) / 2 := by
+    have : e * e ≤ e / 8 := by nlinarith
+    have : e * e * e ≤ e / 64 := by nlinarith
+    rw [he] at *; nlinarith
+  have k1 : g + 2 * e + 2 * (e * e) ≤ (1 + g) / 2 := by linarith
+  have k2 : g + 2 * e ≤ (1 + g) / 2 := by linarith
+  have k3 : g ≤ (1 + g) / 2 := by linarith
+  simp only [V, zstep]
+  rw [n0]
+  calc g * A0 + e * |-g * (g * s.1) + s.1 + g * s.2.1|
+        + e * e * |-g * (-g * (g * s.1) + s.1 + g * s.2.1) + s.2.1 + g * s.2.2.1|
+        + e * e * e * |-g * (-g * (-g * (g * s.1) + s.1 + g * s.2.1) + s.2.1 + g * s.2.2.1) + s.2.2.1 + g * s.2.2.2|
+      ≤ g * A0 + e * (2 * A0 + g * A1) + e * e * (2 * A0 + 2 * A1 + g * A2) + e * e * e * (2 * A0 + 2 * A1 + 2 * A2 + g * A3) := by
+        have := mul_le_mul_of_nonneg_left n1 he0.le
+        have := mul_le_mul_of_nonneg_left n2 hee
+        have := mul_le_mul_of_nonneg_left n3 heee
+        linarith
+    _ = (g + 2 * e + 2 * (e * e) + 2 * (e * e * e)) * A0 + (g + 2 * e + 2 * (e * e)) * (e * A1)
+          + (g + 2 * e) * (e * e * A2) + g * (e * e * e * A3) := by ring
+    _ ≤ (1 + g) / 2 * A0 + (1 + g) / 2 * (e * A1) + (1 + g) / 2 * (e * e * A2) + (1 + g) / 2 * (e * e * e * A3) := by
+        have := mul_le_mul_of_nonneg_right k0 hA0
+        have := mul_le_mul_of_nonneg_right k1 (mul_nonneg he0.le hA1)
+        have := mul_le_mul_of_nonneg_right k2 (mul_nonneg hee hA2)
+        have := mul_le_mul_of_nonneg_right k3 (mul_nonneg heee hA3)
+        linarith
+    _ = (1 + g) / 2 * (A0 + e * A1 + e * e * A2 + e * e * e * A3) := by ring
+
+theorem ladder_zero (g : α) (s : α × α × α × α) (k : Nat) :
+    lagLadder g s (List.replicate (k + 1) 0) = lagLadder g (zstep g s) (List.replicate k 0) := by
+  simp only [List.replicate_succ, lagLadder, List.foldl_cons, zstep, nat_eq, Nat.cast_one, mul_zero, zero_add]
+
+/-- k steps with input 0 shrink the norm by ρ^k -/
+theorem ladder_zero_decay (g : α) (hg0 : 0 ≤ g) (hg1 : g < 1) (s : α × α × α × α) (k : Nat) :
+    V ((1 - g) / 8) (lagLadder g s (List.replicate k 0)) ≤ ((1 + g) / 2) ^ k * V ((1 - g) / 8) s := by
+  induction k generalizing s with
+  | zero => simp [lagLadder]
+  | succ k ih =>
+    rw [ladder_zero]
+    have hρ : 0 ≤ (1 + g) / 2 := by linarith
+    calc V ((1 - g) / 8) (lagLadder g (zstep g s) (List.replicate k 0))
+        ≤ ((1 + g) / 2) ^ k * V ((1 - g) / 8) (zstep g s) := ih _
+      _ ≤ ((1 + g) / 2) ^ k * ((1 + g) / 2 * V ((1 - g) / 8) s) :=
+          mul_le_mul_of_nonneg_left (zstep_contracts g hg0 hg1 s) (pow_nonneg hρ k)
+      _ = ((1 + g) / 2) ^ (k + 1) * V ((1 - g) / 8) s := by ring
+
+theorem lin_self_zero (t : List α) : Linear.lin (1 : α) (-1) t t = List.replicate t.length 0 := by
+  induction t with
+  | nil => rfl
+  | cons x r ih =>
+    simp only [Linear.lin, List.zipWith_cons_cons, List.length_cons, List.replicate_succ] at ih ⊢
+    rw [ih]; congr 1; ring
+
+/-- componentwise difference of two ladder states -/
+def D (s t : α × α × α × α) : α × α × α × α := (s.1 - t.1, s.2.1 - t.2.1, s.2.2.1 - t.2.2.1, s.2.2.2 - t.2.2.2)
+
+/-- **fading memory of the Laguerre ladder**: two runs that receive the same inputs `t` from some point on — their stage
+differences, measured in the weighted norm, shrink by ρ = (1+γ)/2 at every step: geometric convergence, for every 0 ≤ γ < 1 -/
+theorem ladder_fading (g : α) (hg0 : 0 ≤ g) (hg1 : g < 1) (s1 s2 : α × α × α × α) (t : List α) :
+    V ((1 - g) / 8) (D (lagLadder g s1 t) (lagLadder g s2 t)) ≤ ((1 + g) / 2) ^ t.length * V ((1 - g) / 8) (D s1 s2) := by
+  have hlin := Linear.ladder_lin g 1 (-1) s1 s2 t t rfl
+  have hz := lin_self_zero t
+  have e1 : D (lagLadder g s1 t) (lagLadder g s2 t) = lagLadder g (D s1 s2) (List.replicate t.length 0) := by
+    rw [← hz]
+    have : D s1 s2 = (1 * s1.1 + -1 * s2.1, 1 * s1.2.1 + -1 * s2.2.1, 1 * s1.2.2.1 + -1 * s2.2.2.1, 1 * s1.2.2.2 + -1 * s2.2.2.2) := by
+      simp only [D]; refine Prod.ext (by ring) (Prod.ext (by ring) (Prod.ext (by ring) (by ring)))
+    rw [this, hlin]
+    simp only [D]; refine Prod.ext (by ring) (Prod.ext (by ring) (Prod.ext (by ring) (by ring)))
+  rw [e1]
+  exact ladder_zero_decay g hg0 hg1 (D s1 s2) t.length
+
+/-- the difference of the two outputs (L0 + 2L1 + 2L2 + L3)/6 is dominated by the norm of the stage differences -/
+theorem out_diff_le (g : α) (hg0 : 0 ≤ g) (hg1 : g < 1) (s t : α × α × α × α) :
+    |(s.1 + 2 * s.2.1 + 2 * s.2.2.1 + s.2.2.2) / 6 - (t.1 + 2 * t.2.1 + 2 * t.2.2.1 + t.2.2.2) / 6| * (((1 - g) / 8) * ((1 - g) / 8) * ((1 - g) / 8))
+      ≤ V ((1 - g) / 8) (D s t) := by
+  set e := (1 - g) / 8 with he
+  have he0 : 0 < e := by rw [he]; linarith
+  have he1 : e ≤ 1 / 8 := by rw [he]; linarith
+  simp only [V, D]
+  set d0 := s.1 - t.1; set d1 := s.2.1 - t.2.1; set d2 := s.2.2.1 - t.2.2.1; set d3 := s.2.2.2 - t.2.2.2
+  have e0 : (s.1 + 2 * s.2.1 + 2 * s.2.2.1 + s.2.2.2) / 6 - (t.1 + 2 * t.2.1 + 2 * t.2.2.1 + t.2.2.2) / 6
+      = (d0 + 2 * d1 + 2 * d2 + d3) / 6 := by ring
+  rw [e0]
+  have hb : |(d0 + 2 * d1 + 2 * d2 + d3) / 6| ≤ |d0| + |d1| + |d2| + |d3| := by
+    rw [abs_div, show |(6 : α)| = 6 by norm_num, div_le_iff₀ (by norm_num : (0 : α) < 6)]
+    have h1 : |d0 + 2 * d1 + 2 * d2 + d3| ≤ |d0| + 2 * |d1| + 2 * |d2| + |d3| := by
+      calc |d0 + 2 * d1 + 2 * d2 + d3| ≤ |d0 + 2 * d1 + 2 * d2| + |d3| := abs_add_le _ _
+        _ ≤ |d0 + 2 * d1| + |2 * d2| + |d3| := by gcongr; exact abs_add_le _ _
+        _ ≤ |d0| + |2 * d1| + |2 * d2| + |d3| := by gcongr; exact abs_add_le _ _
+        _ = |d0| + 2 * |d1| + 2 * |d2| + |d3| := by rw [abs_mul, abs_mul]; norm_num
+    have := abs_nonneg d0; have := abs_nonneg d1; have := abs_nonneg d2; have := abs_nonneg d3
+    linarith
+  have a0 := abs_nonneg d0; have a1 := abs_nonneg d1; have a2 := abs_nonneg d2; have a3 := abs_nonneg d3
+  have hee : 0 ≤ e * e := by positivity
+  have heee : 0 ≤ e * e * e := by positivity
+  have h3 : e * e * e ≤ e * e := by nlinarith
+  have h2 : e * e ≤ e := by nlinarith
+  have h1' : e ≤ 1 := by linarith
+  calc |(d0 + 2 * d1 + 2 * d2 + d3) / 6| * (e * e * e) ≤ (|d0| + |d1| + |d2| + |d3|) * (e * e * e) :=
+        mul_le_mul_of_nonneg_right hb heee
+    _ = e * e * e * |d0| + e * e * e * |d1| + e * e * e * |d2| + e * e * e * |d3| := by ring
+    _ ≤ |d0| + e * |d1| + e * e * |d2| + e * e * e * |d3| := by
+        have := mul_le_mul_of_nonneg_right (show e * e * e ≤ 1 by nlinarith) a0
+        have := mul_le_mul_of_nonneg_right (show e * e * e ≤ e by nlinarith) a1
+        have := mul_le_mul_of_nonneg_right h3 a2
+        linarith
+
 end SF.LagfStable
